@@ -28,6 +28,8 @@ T = "Qentem::TemplateCore::"
 
 META["explanation"] += " " + 'FX-sink also counts `*stream_ << x` (a plain binary operator on the dependent stream type in the pattern view) as a write to the stream.'
 
+META["explanation"] += " " + 'Taken over unchanged from other modules because a seeded change to this property was reported by them (rules.common.shared): X-copykind from C02.'
+
 def stream_effects(f):
     """[(node id, kind, text)] of everything that can write to the stream member in a renderer"""
     out = []
@@ -63,7 +65,7 @@ def stream_effects(f):
     return out
 
 
-def run(ctx):
+def _run_own(ctx):
     m = ctx.pattern()
     rules = []
 
@@ -585,3 +587,11 @@ def rule_passthrough(ctx, m, es, seen, ENTITIES):
          "a path (%s) skips %s unit(s) and emits nothing although the units it has established spell `%s`%s: an '&' that does not start an entity reaches the output" % (
              "; ".join(bad[0]["dec"])[:160], bad[0]["adv"], bad[1], "" if bad[0]["lo"] >= (bad[0]["adv"] or 0) else " and only %d unit(s) are known to remain" % bad[0]["lo"]), es.loc(amp[0]))
     return r
+
+
+def run(ctx):
+    rules_ = list(_run_own(ctx) or [])
+    from rules.common import shared
+    have = set(r_.rid for r_ in rules_)
+    rules_ += [r_ for r_ in shared(ctx, 'C02', ['X-copykind']) if r_.rid not in have]
+    return rules_
